@@ -17,6 +17,7 @@ media lists, declaration blocks, properties, values and imported sheets are deci
 object graph after every operation of random histories (harness/props/c18.py).
 -/
 import CssVerif.Proofs.Links
+import CssVerif.Proofs.Owners
 namespace CssVerif.C18
 open CssVerif.Links
 
@@ -54,5 +55,126 @@ theorem snapshot_getter :
 example : Chain (step (step (step {} (.insTop 0 1)) (.insIn 1 0 2)) (.insIn 2 0 3)) ([1] ++ [2, 3]) :=
   insertIn_chain _ [1] 2 0 3
     (insertIn_chain _ [] 1 0 2 (insertTop_chain {} 0 1 rfl) (by decide)) (by decide)
+
+/-! ## owner links of the sub-objects (Model/Owners.lean)
+
+A second store keeps, for every rule, its declaration block, properties, property values, selector list,
+selectors and media list, each with the raw link field the code keeps, and transcribes the text and object
+assignments of css/cssstylerule.py, cssstyledeclaration.py, property.py, selectorlist.py, cssmediarule.py
+(and the identical `_setStyle` of @page, margin and @font-face rules).  `Consistent st r` is the executable
+check `consistent st r = true`: the block, every property, every value, the selector list, every selector and
+the media list reached from rule `r` name the container they were reached through.
+
+* `owners_init`: a freshly parsed rule is consistent.
+* `owners_parent`: the check is the property as worded — every child of every object reachable from the rule
+  names that object.
+* `owners_step`: every operation keeps every consistent rule consistent (the rule operated on and all
+  others).  TEXT assignments need no hypothesis.  Adopting an existing OBJECT writes only the object's link and
+  the new owner's field, so it needs `Adopt st r c x`: no container reachable from `r` other than the adopting
+  container `c` lists `x`, and (when `c` belongs to `r`) the children of `x` name `x`.
+* `owners_alias`: without it the statement is false — `rule2.style = rule1.style` leaves rule1 listing a block
+  whose `parentRule` is rule2 (the library does exactly this: the former owner is not told; the same for
+  `setProperty(propertyOfAnotherBlock)`, `appendSelector(selectorOfAnotherList)`, `rule2.selectorList =
+  rule1.selectorList`, `media2.media = media1.media`; kernel-checked instances below).
+* `owners_reachable`, `owners_reachable_text`: any finite history.
+-/
+open CssVerif.Owners in
+/-- a freshly parsed rule (any combination of selector list, declaration block, media list) is consistent -/
+theorem owners_init (st : Owners.St) (sels decls : Option (List Nat)) (media : Bool) (hf : Fresh st) :
+    Consistent (newRule st sels decls media).1 (newRule st sels decls media).2 := by
+  have := newRule_spec st sels decls media hf
+  rw [this.2.1]; exact this.2.2
+
+open CssVerif.Owners in
+/-- the empty store is fresh, and every operation keeps the id counter ahead of the allocated ids -/
+theorem owners_fresh : Fresh {} ∧ ∀ (st : Owners.St) (op : Owners.Op), Fresh st → Fresh (Owners.step st op) :=
+  ⟨fun _ _ => rfl, fun _ op hf => step_fresh hf op⟩
+
+open CssVerif.Owners in
+/-- the check is the property: every child of every object reachable from a consistent rule names it -/
+theorem owners_parent (st : Owners.St) (r c x : Nat) (hc : Consistent st r) (h : c ∈ reach st 3 r)
+    (hx : x ∈ kids (st.objs c)) : parent (st.objs x) = some c := parent_of_reach hc h hx
+
+open CssVerif.Owners in
+/-- every operation keeps every consistent rule consistent; object adoption under `Adopt` (see `Safe`) -/
+theorem owners_step (st : Owners.St) (r : Nat) (op : Owners.Op) (hf : Fresh st) (hc : Consistent st r)
+    (hs : Safe st r op) : Consistent (Owners.step st op) r := step_ok hf hc op hs
+
+open CssVerif.Owners in
+/-- any finite history, the adoption hypothesis holding at each adoption -/
+theorem owners_reachable (st : Owners.St) (r : Nat) (ops : List Owners.Op) (hf : Fresh st)
+    (hc : Consistent st r) (hs : SafeAll st r ops) : Consistent (run st ops) r := (run_ok r ops st hf hc hs).1
+
+open CssVerif.Owners in
+/-- any finite history of text assignments, removals and constructions: no hypothesis -/
+theorem owners_reachable_text (st : Owners.St) (r : Nat) (ops : List Owners.Op) (hf : Fresh st)
+    (hc : Consistent st r) (h : ∀ op ∈ ops, op.adopts = false) : Consistent (run st ops) r :=
+  (run_ok r ops st hf hc (safeAll_of_not_adopts r ops h st)).1
+
+open CssVerif.Owners in
+/-- why `Adopt` is needed: rule `r0` takes the block `x` that rule `r` lists.  Afterwards BOTH rules list `x`,
+`x` names `r0`, and `r` — which still reaches `x` — is inconsistent. -/
+theorem owners_alias (st : Owners.St) (r r0 x y : Nat) (l m l0 m0 pr : Option Nat) (ps : List Nat) (hne : r ≠ r0)
+    (hr : st.objs r = .rule (some x) l m) (hr0 : st.objs r0 = .rule (some y) l0 m0)
+    (hx : st.objs x = .block pr ps) :
+    (setStyleObj st r0 x).objs r = .rule (some x) l m ∧ (setStyleObj st r0 x).objs r0 = .rule (some x) l0 m0 ∧
+    (setStyleObj st r0 x).objs x = .block (some r0) ps ∧ ¬ Consistent (setStyleObj st r0 x) r :=
+  steal_breaks hne hr hr0 hx
+
+namespace OwnersExamples
+open CssVerif.Owners
+
+/-- two parsed style rules: rule 0 (list 1, selectors 2 3, block 4, properties 5 7, values 6 8) and
+rule 9 (list 10, selector 11, block 12, property 13, value 14) -/
+def two : List Owners.Op := [.mkRule (some [10, 11]) (some [20, 21]) false, .mkRule (some [12]) (some [22]) false]
+/-- two @media rules: rule 0 (media list 1), rule 2 (media list 3) -/
+def twoMedia : List Owners.Op := [.mkRule none none true, .mkRule none none true]
+
+example : consistent (run {} two) 0 = true ∧ consistent (run {} two) 9 = true := by decide
+
+/-! the five adoptions, each taking an object that rule 0 still lists: rule 0 breaks, the adopter is fine -/
+example : consistent (run {} (two ++ [.styleObj 9 4])) 0 = false ∧
+    consistent (run {} (two ++ [.styleObj 9 4])) 9 = true := by decide
+example : consistent (run {} (two ++ [.propObj 12 5])) 0 = false ∧
+    consistent (run {} (two ++ [.propObj 12 5])) 9 = true := by decide
+example : consistent (run {} (two ++ [.appendSelObj 10 2])) 0 = false ∧
+    consistent (run {} (two ++ [.appendSelObj 10 2])) 9 = true := by decide
+example : consistent (run {} (two ++ [.selListObj 9 1])) 0 = false ∧
+    consistent (run {} (two ++ [.selListObj 9 1])) 9 = true := by decide
+example : consistent (run {} (twoMedia ++ [.mediaObj 2 1])) 0 = false ∧
+    consistent (run {} (twoMedia ++ [.mediaObj 2 1])) 2 = true := by decide
+/-- … and what the old owner then reports: block 4 is still rule 0's style, its owner link says 9 -/
+example : dump (run {} (two ++ [.styleObj 9 4])) 0 =
+    [(0, none), (4, some 9), (5, some 4), (6, some 5), (7, some 4), (8, some 7), (1, some 0), (2, some 1), (3, some 1)] := by
+  decide
+
+/-- non-vacuity of `Adopt`: detached objects (24 block, 27 property, 29 selector, 30 selector list)
+are adopted by rule 9 after text edits; the hypothesis holds at every step, for both rules -/
+def hist : List Owners.Op := two ++
+  [.propText 4 23, .removeProp 4 20, .appendSelText 1 10, .blockText 12 [24, 25], .selectorText 9 [13],
+   .mkBlock [26], .styleObj 9 24, .mkProp 27, .propObj 24 27, .mkSel 14, .appendSelObj 22 29,
+   .mkSelList [15], .selListObj 9 30, .styleObj 9 24]
+
+instance (st : Owners.St) (r c x : Nat) : Decidable (Adopt st r c x) := inferInstanceAs (Decidable (_ ∧ _))
+instance (st : Owners.St) (r : Nat) (op : Owners.Op) : Decidable (Safe st r op) := by
+  cases op <;> simp only [Safe] <;> infer_instance
+instance decSafeAll (r : Nat) : (ops : List Owners.Op) → (st : Owners.St) → Decidable (SafeAll st r ops)
+  | [], _ => isTrue trivial
+  | op :: ops, st => have := decSafeAll r ops (Owners.step st op); inferInstanceAs (Decidable (_ ∧ _))
+
+example : SafeAll {} 9 hist ∧ SafeAll {} 0 hist := by decide
+example : dump (run {} hist) 9 =
+    [(9, none), (24, some 9), (25, some 24), (26, some 25), (27, some 24), (28, some 27), (30, some 9), (31, some 30)] := by
+  decide
+/-- the second half of `Adopt` (the children of the adopted object name it) is needed as well: block 4 has lost
+property 5 to block 12 (an aliasing adoption) and is then given to a third rule 15, which lists it nowhere -/
+example :
+    let st := run {} (two ++ [.mkRule none (some []) false, .propObj 12 5])
+    (∀ c' ∈ reach st 3 15, 4 ∈ kids (st.objs c') → c' = 15) ∧ inner st 4 = false ∧
+    consistent st 15 = true ∧ consistent (Owners.step st (.styleObj 15 4)) 15 = false := by decide
+/-- stealing is unsafe for the robbed rule only -/
+example : ¬ Safe (run {} two) 0 (.styleObj 9 4) ∧ Safe (run {} two) 9 (.styleObj 9 4) := by decide
+
+end OwnersExamples
 
 end CssVerif.C18
